@@ -440,6 +440,24 @@ func (c *Ctx) Bin(op Op, a, b *Term) *Term {
 		if (a.Op == OConst && a.Val == 0) || (b.Op == OConst && b.Val == 0) {
 			return c.BV(0, w)
 		}
+		if a.Op == OConst || b.Op == OConst {
+			k, x := a, b
+			if b.Op == OConst {
+				k, x = b, a
+			}
+			ub := c.UB(x)
+			n := bits.Len64(ub)
+			if n < 64 && k.Val&((uint64(1)<<uint(n))-1) == 0 {
+				return c.BV(0, w) // constant has no bit below x's highest possible bit
+			}
+		}
+		// zext(x) & k  with k having no bits inside x's width is 0
+		if a.Op == OZext && b.Op == OConst && b.Val&mask(a.Args[0].W) == 0 {
+			return c.BV(0, w)
+		}
+		if b.Op == OZext && a.Op == OConst && a.Val&mask(b.Args[0].W) == 0 {
+			return c.BV(0, w)
+		}
 		if a.Op == OConst && a.Val == mask(w) {
 			return b
 		}
@@ -460,6 +478,60 @@ func (c *Ctx) Bin(op Op, a, b *Term) *Term {
 	case OBvUle, OBvSle:
 		if a == b {
 			return c.True
+		}
+	}
+	if isCmp && b.Op == OConst {
+		ub := c.UB(a)
+		switch op {
+		case OBvUlt:
+			if ub < b.Val {
+				return c.True
+			}
+		case OBvUle:
+			if ub <= b.Val {
+				return c.True
+			}
+		case OBvSlt:
+			if ub < uint64(1)<<uint(w-1) && int64(ub) < sext64(b.Val, w) {
+				return c.True
+			}
+			if ub < uint64(1)<<uint(w-1) && sext64(b.Val, w) <= 0 {
+				return c.False
+			}
+		case OBvSle:
+			if ub < uint64(1)<<uint(w-1) && int64(ub) <= sext64(b.Val, w) {
+				return c.True
+			}
+			if ub < uint64(1)<<uint(w-1) && sext64(b.Val, w) < 0 {
+				return c.False
+			}
+		}
+	}
+	if isCmp && a.Op == OConst {
+		ub := c.UB(b)
+		switch op {
+		case OBvUlt:
+			if ub <= a.Val {
+				return c.False
+			}
+		case OBvUle:
+			if ub < a.Val {
+				return c.False
+			}
+		case OBvSlt:
+			if ub < uint64(1)<<uint(w-1) && sext64(a.Val, w) < 0 {
+				return c.True
+			}
+			if ub < uint64(1)<<uint(w-1) && sext64(a.Val, w) >= int64(ub) {
+				return c.False
+			}
+		case OBvSle:
+			if ub < uint64(1)<<uint(w-1) && sext64(a.Val, w) <= 0 {
+				return c.True
+			}
+			if ub < uint64(1)<<uint(w-1) && sext64(a.Val, w) > int64(ub) {
+				return c.False
+			}
 		}
 	}
 	// comparisons of zero-extended narrow values against constants
@@ -505,6 +577,61 @@ func (c *Ctx) BvNeg(a *Term) *Term {
 		return c.BV(-a.Val, a.W)
 	}
 	return c.mk(&Term{Op: OBvNeg, W: a.W, Args: []*Term{a}})
+}
+
+// UB returns an upper bound of t read as an unsigned number (cheap syntactic analysis).
+func (c *Ctx) UB(t *Term) uint64 {
+	if t.W == 0 {
+		return 1
+	}
+	switch t.Op {
+	case OConst:
+		return t.Val
+	case OZext:
+		return c.UB(t.Args[0])
+	case OBvAnd:
+		a, b := c.UB(t.Args[0]), c.UB(t.Args[1])
+		if a < b {
+			return a
+		}
+		return b
+	case OBvURem:
+		if t.Args[1].Op == OConst && t.Args[1].Val > 0 {
+			return t.Args[1].Val - 1
+		}
+	case OBvUDiv:
+		return c.UB(t.Args[0])
+	case OBvLShr:
+		if t.Args[1].Op == OConst && t.Args[1].Val < 64 {
+			return c.UB(t.Args[0]) >> t.Args[1].Val
+		}
+		return c.UB(t.Args[0])
+	case OIte:
+		a, b := c.UB(t.Args[1]), c.UB(t.Args[2])
+		if a > b {
+			return a
+		}
+		return b
+	case OExtract:
+		if t.Val&0xff == 0 {
+			u := c.UB(t.Args[0])
+			if u <= mask(t.W) {
+				return u
+			}
+		}
+	case OBvOr, OBvXor:
+		a, b := c.UB(t.Args[0]), c.UB(t.Args[1])
+		if a < b {
+			a = b
+		}
+		// round up to all-ones of the same bit length
+		n := bits.Len64(a)
+		if n >= 64 {
+			return mask(t.W)
+		}
+		return (uint64(1) << uint(n)) - 1
+	}
+	return mask(t.W)
 }
 
 func (c *Ctx) Extract(a *Term, hi, lo int) *Term {
@@ -560,6 +687,9 @@ func (c *Ctx) Sext(a *Term, w int) *Term {
 	}
 	if a.Op == OConst {
 		return c.BV(uint64(sext64(a.Val, a.W)), w)
+	}
+	if c.UB(a) < uint64(1)<<uint(a.W-1) {
+		return c.Zext(a, w) // sign bit known to be clear
 	}
 	return c.mk(&Term{Op: OSext, W: w, Args: []*Term{a}, Val: uint64(w - a.W)})
 }
